@@ -91,6 +91,10 @@ type Exec struct {
 	callStack []string
 	strs      map[string]*StrV
 	locks     map[*Loc]*lockState
+	fs        *fsState
+	crcBuf    map[*Loc][]*Term
+	largeAlloc int
+	clockFixed *Term
 }
 
 type knownPred struct {
@@ -552,8 +556,28 @@ func (e *Exec) instr(fr *frame, ins ssa.Instruction) {
 		}
 		fr.env[x] = fv
 	case *ssa.MakeSlice:
-		n := e.concretizeInt(e.get(fr, x.Len).(*Term), "makeslice len")
-		c := e.concretizeInt(e.get(fr, x.Cap).(*Term), "makeslice cap")
+		lt := e.get(fr, x.Len).(*Term)
+		var n, c int
+		if e.largeAlloc > 0 && !lt.Const && x.Len == x.Cap {
+			// harness-declared bound (verif.LargeAllocAs): a symbolic length above K is
+			// modelled by one representative of K+1 elements
+			lni, _ := basicInfo(x.Len.Type())
+			k := e.intConst(lni, int64(e.largeAlloc))
+			if e.branch(e.intCmp(token.GTR, lni, lt, k)) {
+				n, c = e.largeAlloc+1, e.largeAlloc+1
+				e.stubs["make([]T, n) with symbolic n above the declared bound: one representative length"] = true
+			} else {
+				n = e.concretizeInt(lt, "makeslice len")
+				c = n
+			}
+		} else {
+			n = e.concretizeInt(lt, "makeslice len")
+			c = e.concretizeInt(e.get(fr, x.Cap).(*Term), "makeslice cap")
+			if e.largeAlloc > 0 && n == c && n > e.largeAlloc {
+				n, c = e.largeAlloc+1, e.largeAlloc+1
+				e.stubs["make([]T, n) with n above the declared bound: one representative length"] = true
+			}
+		}
 		if n < 0 || c < n {
 			e.goPanicf("makeslice: len out of range")
 		}
